@@ -32,6 +32,11 @@ type Engine struct {
 	fnByName  map[string]*ssa.Function
 	pureExt   map[string]bool // package path prefixes / function names assumed pure
 	loadTime  float64
+	namedTypes []*types.TypeName
+	globReach  *reachInfo
+	scanned    bool
+	closures   []closureInfo
+	ifaceSrcList []types.Type
 }
 
 func debugObject(d *ssa.DebugRef) types.Object { return d.Object() }
@@ -95,6 +100,27 @@ func (e *Engine) Load(patterns []string) error {
 			if err := e.cs.loadContractFile(f, p.Pkg.Path()); err != nil {
 				return err
 			}
+		}
+	}
+	// instantiate verif:methods templates for every method without its own contract
+	for _, t := range e.cs.Templates {
+		prefix := t.PkgPath + "." + strings.TrimSuffix(t.Key, "*")
+		var names []string
+		for n := range e.fnByName {
+			if strings.HasPrefix(n, prefix) && !strings.Contains(n[len(prefix):], "$") {
+				names = append(names, n)
+			}
+		}
+		sort.Strings(names)
+		for _, n := range names {
+			if _, has := e.cs.Funcs[n]; has {
+				continue
+			}
+			c := *t
+			c.Key = strings.TrimPrefix(n, t.PkgPath+".")
+			c.Template = false
+			e.cs.Funcs[n] = &c
+			e.cs.FuncOrder = append(e.cs.FuncOrder, n)
 		}
 	}
 	assumed, _ := filepath.Glob(filepath.Join(e.verifDir, "contracts", "assumed", "*.spec"))
